@@ -94,3 +94,8 @@ pub fn first_diff<T: PartialEq + std::fmt::Debug>(got: &[T], want: &[T]) -> Opti
     }
     first.map(|i| (i, format!("{:?}", got[i]), format!("{:?}", want[i]), count))
 }
+
+/// panic fingerprint on one line: `panic@<file>:<first line of the message, digits stripped>`
+pub fn pfp(p: &vcore::PanicInfo) -> String {
+    p.fingerprint().lines().next().unwrap_or("panic").trim().to_string()
+}
